@@ -161,7 +161,7 @@ inductive Err where
   | other
   /-- Lean fuel exhausted — unreachable with the fuel the entry points use -/
   | fuel
-  deriving Repr, Inhabited
+  deriving Repr, Inhabited, DecidableEq
 
 /-- `RecursorError::is_nx_domain` -/
 def Err.isNx : Err → Bool
